@@ -728,7 +728,7 @@ func (c *Ctx) noGlobalWrites(rule string, entries []*ssa.Function, where string)
 		}
 		// the secret generators and the key exchange must not keep process-wide state at all: a lock, a sync.Once
 		// or a sync.Map makes the write safe, not the second client's exchange independent of the first one's
-		strict := strings.HasPrefix(rule, "R19") || strings.HasPrefix(rule, "R07") || rule == "R06.Z"
+		strict := strings.HasPrefix(rule, "R19") || strings.HasPrefix(rule, "R07") || rule == "R06.Z" || rule == "R17.G"
 		if w.What == "sync.Map write" && !strict {
 			locked = true // synchronised by construction
 		}
